@@ -1088,6 +1088,8 @@ cannot obtain lock: %s", STRERR);
 	with (echs_instant_t te = epoch_to_echs_instant(t->t_end.tv_sec)) {
 		size_t n;
 
+		/* the buffer is static and ends up as COMPLETED: further down */
+		memcpy(stmp, "CODTSTAMP:", strlenof("CODTSTAMP:"));
 		n = strlenof("XXDTSTAMP:");
 		n += dt_strf_ical(stmp + n, sizeof(stmp) - n, te);
 		stmp[n++] = '\n';
